@@ -7,7 +7,7 @@ VERIF = os.path.dirname(os.path.dirname(os.path.dirname(os.path.abspath(__file__
 REPO = os.environ.get("VERIF_REPO", "/repo")
 SRC = os.path.join(REPO, "src")
 LEAN = os.path.join(VERIF, "lean")
-EVID = os.path.join(VERIF, "evidence")
+EVID = os.environ.get("VERIF_EVID") or os.path.join(VERIF, "evidence")   # seedtest.py redirects it so that mutant runs never overwrite the real evidence
 REPLAY = os.path.join(EVID, "replay")
 DRIVER = os.path.join(LEAN, ".lake", "build", "bin", "modeldriver")
 GUARD = "WARNER_PYTHON_ECDSA_VERIF"
@@ -91,16 +91,25 @@ class Ctx:
 
 
 # ------------------------------------------------------------------------------------------------
+_LOCK = {"depth": 0, "f": None}
+
+
 @contextlib.contextmanager
 def lake_lock():
-    os.makedirs(os.path.join(LEAN, ".lake"), exist_ok=True)
-    f = open(os.path.join(LEAN, ".lake", "verif.lock"), "w")
-    fcntl.flock(f, fcntl.LOCK_EX)
+    """process-reentrant exclusive lock on the lake project"""
+    if _LOCK["depth"] == 0:
+        os.makedirs(os.path.join(LEAN, ".lake"), exist_ok=True)
+        _LOCK["f"] = open(os.path.join(LEAN, ".lake", "verif.lock"), "w")
+        fcntl.flock(_LOCK["f"], fcntl.LOCK_EX)
+    _LOCK["depth"] += 1
     try:
         yield
     finally:
-        fcntl.flock(f, fcntl.LOCK_UN)
-        f.close()
+        _LOCK["depth"] -= 1
+        if _LOCK["depth"] == 0:
+            fcntl.flock(_LOCK["f"], fcntl.LOCK_UN)
+            _LOCK["f"].close()
+            _LOCK["f"] = None
 
 
 def run(cmd, cwd=None, timeout=3600, inp=None):
@@ -325,6 +334,9 @@ def finish(ctx, level="proof"):
     """classify, print, write evidence, return exit code"""
     pid = ctx.pid
     os.makedirs(REPLAY, exist_ok=True)
+    if ctx.cov.get("evaluations", 0) == 0 and not any(p["kind"] == "harness" for p in ctx.problems):
+        # a check that explored nothing has shown nothing about the real code: never a silent PASS
+        ctx.problem("harness", "no case was explored against the real code (empty generators or skipped stages)")
     known = [k for k in load_known() if k["property"] == pid and k["status"] == "open"]
     new_viol, known_hit = [], {}
     for v in ctx.violations:
